@@ -84,7 +84,7 @@ def pi_pcov(Xr, yr, axis, k, mix):
     else:
         C = Xr.T @ Xr
         w, U = np.linalg.eigh(C)
-        if np.any((w > 1e-14) & (w < 1e-10)):
+        if np.any((w > 1e-14) & (w < max(1e-10, 1e-9 * w.max()))):
             return None, 0.0
         keep = w > 1e-12
         Cis = (U[:, keep] / np.sqrt(w[keep])) @ U[:, keep].T
